@@ -2,7 +2,7 @@
    input  L [I kind; parse table; fmt table; payload...]
      parse table  L [L [text; I code]; ...]   the graph of float() on the texts of the case
      fmt table    L [L [I code; text]; ...]   the graph of str(numpy.float64) on its values
-   kind 0: payload = table; opts L [hk opt; hv opt; I formatter]; I process; I splitter; I keep
+   kind 0: payload = table; opts L [hk opt; hv opt; I formatter; corner cell]; I process; I splitter; I keep
            -> L [to_tsv result; round-trip result]
    kind 1: payload = lines; I process -> L [from_tsv result]                                  *)
 From Coq Require Import List ZArith Bool.
@@ -38,7 +38,7 @@ Definition run (t : Tree) : Tree :=
   | 0 =>
       let c := tXtab (tnth t 3) in
       let ot := tnth t 4 in
-      let o := mkO (tOpt tText (tnth ot 0)) (tOpt tText (tnth ot 1)) in
+      let o := mkO3 (tOpt tText (tnth ot 0)) (tOpt tText (tnth ot 1)) (tText (tnth ot 3)) in
       let format := formatter (tZ (tnth ot 2)) in
       let process := processor (tZ (tnth t 5)) in
       L [eResult (fun ls => L (map eText ls)) (to_tsv fmt format c o);
